@@ -161,6 +161,12 @@ def main():
     if a.replay:
         return replay(R, a.replay)
 
+    # stale replay files of an earlier run with the same tier/seed would be misleading
+    if os.path.isdir(C.REPLAYS):
+        for fn in os.listdir(C.REPLAYS):
+            if fn.startswith("%s_%s_s%d_" % (prop, tier, seed)):
+                os.remove(os.path.join(C.REPLAYS, fn))
+
     # 1. proof obligations
     aud = C.audit(prop)
     proof_broken = bool(aud["failed"])
@@ -404,7 +410,16 @@ def replay(R, path):
     return 0
 
 
+def _watchdog(signum, frame):
+    print("TIMEOUT: check exceeded its wall-clock budget (infrastructure problem, not a verdict)")
+    os._exit(2)
+
+
 if __name__ == "__main__":
+    import signal
+
+    signal.signal(signal.SIGALRM, _watchdog)
+    signal.alarm(int(os.environ.get("VERIF_TIMEOUT", "1500" if "thorough" not in " ".join(sys.argv) else "5400")))
     try:
         sys.exit(main())
     except SystemExit:
